@@ -508,6 +508,9 @@ func rewriteSelect(fset *token.FileSet, tf *token.File, src []byte, ss *ast.Sele
 			fmt.Fprintf(&b, "//line %s:%d\n%s\n", path, defLine, defBody)
 		}
 	}
+	// a default that cannot be reached keeps the statement "terminating" in the sense of the
+	// language spec whenever every clause of the original select ended in return / panic
+	fmt.Fprintf(&b, "default:\npanic(\"simrt: impossible select outcome\")\n")
 	endLine := fset.Position(ss.End()).Line
 	fmt.Fprintf(&b, "} }\n//line %s:%d\n", path, endLine)
 	return b.String(), ""
